@@ -1,4 +1,4 @@
-import DoltVerif.Lemmas.ValCodecInt
+import DoltVerif.Lemmas.ValCodecLayout
 /-!
 C15 — Tuple encodings round-trip and sort like the SQL values they encode.
 
@@ -139,5 +139,195 @@ theorem order_year (a b : Int16) (ha : yearDomain a) (hb : yearDomain b) :
 
 example : yearDomain 2024 ∧ writeYear 2024 = .ok [123] ∧ writeYear 0 = .ok [255] := by
   refine ⟨.inr (by decide), by decide, by decide⟩
+
+/-! ## strings, byte strings, fixed raw values (hash128, addresses, cells) -/
+
+theorem roundtrip_bytes (v : Bytes) : readByteString (writeByteString v) = .ok v := readByteString_write v
+
+/-- `StringEnc`/`ByteStringEnc` compare like the byte strings they encode (the 0 terminator is not
+part of the comparison: `"a" < "a\x00"`), and `bytes.Compare` is the lexicographic order
+(`bytesCompare_lt_iff`, `bytesCompare_eq_iff`) -/
+theorem order_string (a b : Bytes) :
+    compareEnc .string (writeByteString a) (writeByteString b) = .ok (bytesCompare a b) := by
+  simp [compareEnc, readByteString_write, bind, Except.bind, pure, Except.pure]
+theorem order_bytes (a b : Bytes) :
+    compareEnc .bytes (writeByteString a) (writeByteString b) = .ok (bytesCompare a b) := by
+  simp [compareEnc, readByteString_write, bind, Except.bind, pure, Except.pure]
+theorem bytes_order_is_lexicographic (a b : Bytes) :
+    (bytesCompare a b = .lt ↔ a < b) ∧ (bytesCompare a b = .eq ↔ a = b) ∧ (bytesCompare a b = .gt ↔ b < a) :=
+  ⟨bytesCompare_lt_iff, bytesCompare_eq_iff, bytesCompare_gt_iff⟩
+
+theorem order_hash128 (a b : Bytes) (ha : a.length = 16) (hb : b.length = 16) :
+    compareEnc .hash128 a b = .ok (bytesCompare a b) := by
+  simp [compareEnc, readRaw_ok ha, readRaw_ok hb, bind, Except.bind, pure, Except.pure]
+theorem order_addr (e : Enc) (he : e = .bytesAddr ∨ e = .commitAddr ∨ e = .stringAddr ∨ e = .jsonAddr ∨ e = .geomAddr)
+    (a b : Bytes) (ha : a.length = 20) (hb : b.length = 20) :
+    compareEnc e a b = .ok (bytesCompare a b) := by
+  rcases he with h | h | h | h | h <;> subst h <;>
+    simp [compareEnc, readRaw_ok ha, readRaw_ok hb, bind, Except.bind, pure, Except.pure]
+theorem order_cell (a b : Bytes) (ha : a.length = 17) (hb : b.length = 17) :
+    compareEnc .cell a b = .ok (bytesCompare a b) := by
+  simp [compareEnc, readRaw_ok ha, readRaw_ok hb, bind, Except.bind, pure, Except.pure]
+
+example : compareEnc .string (writeByteString [97]) (writeByteString [97, 0]) = .ok .lt := by decide
+
+/-! ## tuples -/
+
+/-- **tuple_roundtrip**: every field of a built tuple reads back as the value it was built from
+(fields past the stored count — the dropped NULL suffix and columns added later — read as NULL;
+`normField` only turns the non-nil empty slice, which no encoding produces, into NULL), and the
+stored count is the length without the trailing NULLs.  `newTuple fs = .ok t` holds exactly under
+the size conditions `BuildOk` (`newTuple_of_ok`). -/
+theorem tuple_roundtrip (fs : List Field) (t : Bytes) (h : newTuple fs = .ok t) :
+    (∀ i, getField t i = .ok (normField ((fs[i]?).join))) ∧
+    tupleCount t = .ok (trimNullSuffix fs).length := by
+  obtain ⟨hok, rfl⟩ := newTuple_ok h
+  refine ⟨fun i => ?_, ?_⟩
+  · rw [getField_layout _ hok i, trim_getElem?]
+  · exact tupleCount_layout _ (by have := hok.nfields; simp [maxTupleFields] at this; omega)
+
+example : newTuple [some [1], none, some [2, 3], none] = .ok [1, 2, 3, 1, 0, 1, 0, 3, 0] ∧
+    getField [1, 2, 3, 1, 0, 1, 0, 3, 0] 2 = .ok (some [2, 3]) ∧
+    getField [1, 2, 3, 1, 0, 1, 0, 3, 0] 1 = .ok none := by decide
+
+/-- the field list a tuple is built from determines it only up to trailing NULLs … -/
+theorem tuple_canonical (fs gs : List Field) (h : trimNullSuffix fs = trimNullSuffix gs) :
+    newTuple fs = newTuple gs := by
+  unfold newTuple; rw [h]
+
+/-- … in particular appending NULL columns does not change a single byte -/
+theorem tuple_trailing_nulls (fs : List Field) (k : Nat) :
+    newTuple (fs ++ List.replicate k none) = newTuple fs := by
+  apply tuple_canonical
+  induction fs with
+  | nil =>
+    induction k with
+    | zero => rfl
+    | succ k ih => rw [List.nil_append] at ih ⊢; rw [List.replicate_succ]; exact trim_cons_none_nil ih
+  | cons f fs ih =>
+    rw [List.cons_append]
+    by_cases ht : trimNullSuffix fs = []
+    · cases f with
+      | none => rw [trim_cons_none_nil ht, trim_cons_none_nil (ih ▸ ht)]
+      | some b => rw [trim_cons_some, trim_cons_some, ih]
+    · rw [trim_cons_ne f ht, trim_cons_ne f (ih ▸ ht), ih]
+
+/-- no field is the non-nil empty slice (true of every field written by a `Put*` of an encoding:
+`encoding_nonempty` below) -/
+def NonEmptyFields (fs : List Field) : Prop := ∀ f ∈ fs, f ≠ some []
+
+theorem normField_id {f : Field} (h : f ≠ some []) : normField f = f := by
+  cases f with
+  | none => rfl
+  | some b => cases b <;> simp_all [normField]
+
+/-- **canonical form**: two tuples that *read* the same (every field, through `GetField`) are the
+same bytes — however they were built (`NewTuple`, `TupleBuilder.Build/BuildPermissive`, any put
+order, any number of trailing NULL columns). -/
+theorem tuple_canonical_decode (fs gs : List Field) (s t : Bytes)
+    (hs : newTuple fs = .ok s) (ht : newTuple gs = .ok t)
+    (hf : NonEmptyFields fs) (hg : NonEmptyFields gs)
+    (hread : ∀ i, getField s i = getField t i) : s = t := by
+  have h1 := (tuple_roundtrip fs s hs).1
+  have h2 := (tuple_roundtrip gs t ht).1
+  have key : ∀ i : Nat, ((trimNullSuffix fs)[i]?).join = ((trimNullSuffix gs)[i]?).join := by
+    intro i
+    have := hread i
+    rw [h1 i, h2 i] at this
+    have e := Except.ok.inj this
+    have nf : ∀ (l : List Field), NonEmptyFields l → ∀ i : Nat, (l[i]?).join ≠ some [] := by
+      intro l hl i
+      cases hh : l[i]? with
+      | none => simp [Option.join]
+      | some x => simpa [Option.join] using hl x (List.mem_of_getElem? hh)
+    rw [normField_id (nf fs hf i), normField_id (nf gs hg i)] at e
+    rw [trim_getElem?, trim_getElem?, e]
+  have : trimNullSuffix fs = trimNullSuffix gs := by
+    have lenle : ∀ (A B : List Field), (∀ i : Nat, (A[i]?).join = (B[i]?).join) →
+        (∀ h : B ≠ [], B.getLast h ≠ none) → B.length ≤ A.length := by
+      intro A B hk hB
+      by_cases hb : B = []
+      · simp [hb]
+      · by_cases hlt : B.length ≤ A.length
+        · exact hlt
+        · exfalso
+          have hpos : 0 < B.length := List.length_pos_iff.2 hb
+          have := hk (B.length - 1)
+          rw [List.getElem?_eq_none (by omega), List.getElem?_eq_getElem (by omega)] at this
+          have hl := hB hb
+          rw [List.getLast_eq_getElem] at hl
+          simp [Option.join] at this
+          exact hl this.symm
+    have hA := trim_getLast fs
+    have hB := trim_getLast gs
+    have l1 := lenle _ _ key hB
+    have l2 := lenle _ _ (fun i => (key i).symm) hA
+    apply List.ext_getElem (by omega)
+    intro i h1 h2
+    have := key i
+    rw [List.getElem?_eq_getElem h1, List.getElem?_eq_getElem h2] at this
+    simpa [Option.join] using this
+  rw [← Except.ok.injEq, ← hs, ← ht]
+  exact tuple_canonical fs gs this
+
+/-- the hypothesis `NonEmptyFields` is needed: a non-nil empty slice (reachable only through
+`PutRaw(i, []byte{})`/`NewTuple` with an empty slice, never through an encoding) is kept by
+`trimNullSuffix` but reads back as NULL — two tuples that read the same, with different bytes. -/
+theorem canonical_needs_nonempty :
+    ∃ fs gs s t, newTuple fs = .ok s ∧ newTuple gs = .ok t ∧ (∀ i, getField s i = getField t i) ∧ s ≠ t := by
+  refine ⟨[some [1], some []], [some [1], none], [1, 1, 0, 2, 0], [1, 1, 0], by decide, by decide, ?_, by decide⟩
+  intro i
+  match i with
+  | 0 => decide
+  | 1 => decide
+  | (n + 2) =>
+    have h1 : getField [1, 1, 0, 2, 0] (n + 2) = .ok none := by
+      simp [getField, tupleCount, leNat]
+    have h2 : getField [1, 1, 0] (n + 2) = .ok none := by
+      simp [getField, tupleCount, leNat]
+    rw [h1, h2]
+
+/-- every encoding writes at least one byte … -/
+theorem encoding_nonempty :
+    (∀ v, writeU8 v ≠ []) ∧ (∀ v, writeU16 v ≠ []) ∧ (∀ v, writeU32 v ≠ []) ∧ (∀ v, writeU64 v ≠ []) ∧
+    (∀ v, writeI8 v ≠ []) ∧ (∀ v, writeI16 v ≠ []) ∧ (∀ v, writeI32 v ≠ []) ∧ (∀ v, writeI64 v ≠ []) ∧
+    (∀ v, writeByteString v ≠ []) ∧ (∀ v, writeDate v ≠ []) ∧ (∀ v, writeDecimal v ≠ []) ∧
+    (∀ v b, writeYear v = .ok b → b ≠ []) := by
+  have L : ∀ n v, 0 < n → leBytes n v ≠ [] := by
+    intro n v hn h; have := leBytes_length n v; rw [h] at this; simp at this; omega
+  refine ⟨fun v => L _ _ (by omega), fun v => L _ _ (by omega), fun v => L _ _ (by omega), fun v => L _ _ (by omega),
+    fun v => L _ _ (by omega), fun v => L _ _ (by omega), fun v => L _ _ (by omega), fun v => L _ _ (by omega),
+    writeByteString_ne_nil, ?_, ?_, ?_⟩
+  · intro v; cases v <;> exact L _ _ (by omega)
+  · intro v
+    unfold writeDecimal
+    split
+    · exact L _ _ (by omega)
+    · split <;> exact L _ _ (by omega)
+    · intro h
+      have := congrArg List.length h
+      simp [writeI32, writeU32, leBytes_length] at this
+  · intro v b h
+    unfold writeYear at h
+    split at h
+    · cases h; exact L _ _ (by omega)
+    · split at h
+      · cases h
+      · cases h; exact L _ _ (by omega)
+
+/-- … so **empty_vs_null**: in a tuple built from encodings, a field reads as NULL exactly when it
+was NULL; in particular the empty string (`[0]`) is not NULL. -/
+theorem empty_vs_null (fs : List Field) (t : Bytes) (h : newTuple fs = .ok t) (hf : NonEmptyFields fs)
+    (i : Nat) (hi : i < fs.length) : getField t i = .ok none ↔ fs[i] = none := by
+  rw [(tuple_roundtrip fs t h).1 i, List.getElem?_eq_getElem hi]
+  have hne : fs[i] ≠ some [] := hf _ (List.getElem_mem hi)
+  have : ((some fs[i] : Option Field)).join = fs[i] := rfl
+  rw [this, normField_id hne]
+  constructor
+  · intro e; exact Except.ok.inj e
+  · intro e; rw [e]
+
+example : newTuple [some (writeByteString []), none] = .ok [0, 1, 0] ∧
+    getField [0, 1, 0] 0 = .ok (some [0]) ∧ readByteString [0] = .ok [] := by decide
 
 end DoltVerif.C15
